@@ -193,8 +193,8 @@ def run_tlc(
     return res
 
 
-_RE_REJECT = re.compile(r'^<<"REJECT", (\d+), (\d+), <<(\d+), "([^"]*)">>>>', re.M)
-_RE_SUMMARY = re.compile(r'^<<"SUMMARY", (\d+), (\d+)>>', re.M)
+_RE_REJECT = re.compile(r'<<\s*"REJECT",\s*(\d+),\s*(\d+),\s*<<\s*(\d+),\s*"([^"]*)"\s*>>\s*>>')
+_RE_SUMMARY = re.compile(r'<<\s*"SUMMARY",\s*(\d+),\s*(\d+)\s*>>')
 
 
 @dataclass
